@@ -1,10 +1,169 @@
 /-
-  C01 — placeholder while the proofs are being written (replaced below).
+  C01 — declarative queries return what Python evaluation of the same expression returns.
+  Property theorems only (engine Q).  Model: Model/SqlEval.lean (SQL AST + three-valued evaluation per backend),
+  Model/Translate.lean (expression fragment, Python reading `py`, Pony's monad translation `tr` as written, hypothesis set `frag`);
+  the induction is in Lemmas/TranslateMain.lean (`tr_ok`).
+
+  Statement proved (all schemas, all well-typed rows and parameter values, all expressions of the fragment, SQLite / PostgreSQL /
+  MySQL semantics): the WHERE conditions Pony emits select a row  iff  the Python reading of the expression is *true* on that
+  row; where the expression contains no truth test of a possibly missing value the two three-valued outcomes are equal; the column
+  of a projection evaluates to the Python value.  The hypotheses `frag` excludes are each shown NOT to be removable by a concrete
+  witness (`…_full_false`); the engine replays those witnesses on the real code on every run.
 -/
-import PonyVerif.Model.Translate
+import PonyVerif.Lemmas.TranslateMain
 namespace PonyVerif.Props.C01
 open PonyVerif.Model.Q
 
-theorem C01_placeholder : K.not .tt = .ff := rfl
+/-- **C01_cond** — for every schema, backend, well-typed row and parameters, and every expression of the fragment that Pony
+    translates: the emitted WHERE conditions evaluate without a type error and select the row exactly when the Python reading
+    (missing operand of a comparison: unknown; missing value in a truth test: false) is true. -/
+theorem C01_cond (sch : Schema) (d : Dialect) (L : LikeFn) (env : PEnv) (e : Expr) (cs : SqlList)
+    (hwt : WT sch env) (hL : LikeOK L d) (hf : frag sch d e = true) (htr : conditions sch d e = .ok cs) :
+    ∃ k, evalCond L d (senv d env) (.and cs) = some k ∧ (k = .tt ↔ pySelected env e = true) := by
+  let C : Cx := ⟨sch, d, L, env⟩
+  simp only [conditions] at htr
+  cases hm : tr sch d e with
+  | error x => simp [hm] at htr
+  | ok m =>
+    simp only [hm] at htr; injection htr with htr; subst htr
+    obtain ⟨⟨k, hk, rk, _⟩, _⟩ := (tr_ok C hwt hL e m hf hm).condOf
+    refine ⟨k, ?_, ?_⟩
+    · rw [evalCond_and]; exact (evalAnd_flat C _).trans hk
+    · simpa [pySelected] using rk.1
+
+/-- **C01_cond_exact** — when no truth test of a possibly missing value occurs (`exact`), the three-valued outcomes coincide. -/
+theorem C01_cond_exact (sch : Schema) (d : Dialect) (L : LikeFn) (env : PEnv) (e : Expr) (cs : SqlList)
+    (hwt : WT sch env) (hL : LikeOK L d) (hf : frag sch d e = true) (hx : exact sch e = true)
+    (htr : conditions sch d e = .ok cs) :
+    evalCond L d (senv d env) (.and cs) = some (py env e).asK := by
+  let C : Cx := ⟨sch, d, L, env⟩
+  simp only [conditions] at htr
+  cases hm : tr sch d e with
+  | error x => simp [hm] at htr
+  | ok m =>
+    simp only [hm] at htr; injection htr with htr; subst htr
+    obtain ⟨⟨k, hk, _, xk⟩, _⟩ := (tr_ok C hwt hL e m hf hm).condOf
+    rw [evalCond_and, ← xk hx]; exact (evalAnd_flat C _).trans hk
+
+/-- **C01_false_rows** — a row the WHERE clause rejects with *false* (not unknown) is a row on which Python says false. -/
+theorem C01_false_rows (sch : Schema) (d : Dialect) (L : LikeFn) (env : PEnv) (e : Expr) (cs : SqlList)
+    (hwt : WT sch env) (hL : LikeOK L d) (hf : frag sch d e = true) (htr : conditions sch d e = .ok cs)
+    (hk : evalCond L d (senv d env) (.and cs) = some .ff) : (py env e).asK = .ff := by
+  let C : Cx := ⟨sch, d, L, env⟩
+  simp only [conditions] at htr
+  cases hm : tr sch d e with
+  | error x => simp [hm] at htr
+  | ok m =>
+    simp only [hm] at htr; injection htr with htr; subst htr
+    obtain ⟨⟨k, hk', rk, _⟩, _⟩ := (tr_ok C hwt hL e m hf hm).condOf
+    rw [evalCond_and] at hk
+    have : some k = some K.ff := ((evalAnd_flat C _).trans hk').symm.trans hk
+    injection this with this; subst this
+    exact rk.2 rfl
+
+/-- **C01_proj** — the column of a projection `select(<value expression> for e in E)` evaluates to the Python value
+    (missing = NULL), with the declared type. -/
+theorem C01_proj (sch : Schema) (d : Dialect) (L : LikeFn) (env : PEnv) (e : Expr) (sql : Sql)
+    (hwt : WT sch env) (hL : LikeOK L d) (hf : frag sch d e = true) (hs : valueSorted e = true)
+    (htr : projection sch d e = .ok sql) :
+    ∃ v, py env e = .val v ∧ eval L d (senv d env) sql = some (encV d v) := by
+  let C : Cx := ⟨sch, d, L, env⟩
+  simp only [projection] at htr
+  cases hm : tr sch d e with
+  | error x => simp [hm] at htr
+  | ok m =>
+    simp only [hm] at htr; injection htr with htr; subst htr
+    obtain ⟨c, t, n, s, rfl, _, v, hpy, _, hev, _⟩ := (tr_ok C hwt hL e m hf hm).val hs
+    exact ⟨v, hpy, hev⟩
+
+/-- **C01_nullable_flag** — the invariant each value monad carries: `monad.nullable = False` implies the value is never missing. -/
+theorem C01_nullable_flag (sch : Schema) (d : Dialect) (L : LikeFn) (env : PEnv) (e : Expr) (c : MCls) (t : Ty) (s : Sql)
+    (hwt : WT sch env) (hL : LikeOK L d) (hf : frag sch d e = true) (htr : tr sch d e = .ok (.val c t false s)) :
+    ∃ x, py env e = .val (some x) := by
+  let C : Cx := ⟨sch, d, L, env⟩
+  have g := (tr_ok C hwt hL e _ hf htr).1
+  obtain ⟨v, hpy, _, _, hnn⟩ := g
+  cases v with
+  | none => exact absurd rfl (hnn (Or.inl rfl))
+  | some x => exact ⟨x, hpy⟩
+
+/-! ### the hypotheses are satisfiable, and not removable -/
+
+def sch0 : Schema where
+  attr n := if n = "a" then some (.int, false) else if n = "n" then some (.int, true) else if n = "b" then some (.bool, false)
+            else if n = "ns" then some (.str, true) else none
+  par _ := none
+
+/-- a row with `n` and `ns` missing, `a = 1`, `b = False` -/
+def env0 : PEnv where
+  col n := if n = "a" then some (.int 1) else if n = "b" then some (.bool false) else none
+  par _ := .int 0
+
+theorem wt0 : WT sch0 env0 := by
+  constructor
+  · intro n t nl h
+    simp only [sch0] at h
+    by_cases h1 : n = "a"
+    · subst h1; simp at h; obtain ⟨rfl, rfl⟩ := h; simp [env0, hasTy]
+    · by_cases h2 : n = "n"
+      · subst h2; simp at h; obtain ⟨rfl, rfl⟩ := h; simp [env0]
+      · by_cases h3 : n = "b"
+        · subst h3; simp at h; obtain ⟨rfl, rfl⟩ := h; simp [env0, hasTy]
+        · by_cases h4 : n = "ns"
+          · subst h4; simp at h; obtain ⟨rfl, rfl⟩ := h; simp [env0]
+          · simp [h1, h2, h3, h4] at h
+  · intro n t h; simp [sch0] at h
+
+/-- `not (e.n < e.a) and (e.b or e.ns is None)` is inside the fragment -/
+example : frag sch0 .sqlite (.and (.not (.cmp .lt (.attr "n") (.attr "a"))) (.or (.attr "b") (.cmp .is_ (.attr "ns") .cNone))) = true := by
+  decide
+
+def hasLike : Expr → Bool
+  | .like _ _ _ _ => true
+  | .cmp _ l r => hasLike l || hasLike r
+  | .inList _ x _ => hasLike x
+  | .and l r => hasLike l || hasLike r
+  | .or l r => hasLike l || hasLike r
+  | .not x => hasLike x
+  | .bin _ l r => hasLike l || hasLike r
+  | .neg x => hasLike x | .abs x => hasLike x | .len x => hasLike x
+  | .ite c t e => hasLike c || hasLike t || hasLike e
+  | _ => false
+
+/-- the statement of `C01_cond` without the restriction to the fragment (for expressions without LIKE, so that no assumption
+    about the backend's matcher is involved) -/
+def C01_cond_full : Prop :=
+  ∀ (sch : Schema) (d : Dialect) (L : LikeFn) (env : PEnv) (e : Expr) (cs : SqlList),
+    WT sch env → hasLike e = false → conditions sch d e = .ok cs →
+    ∃ k, evalCond L d (senv d env) (.and cs) = some k ∧ (k = .tt ↔ pySelected env e = true)
+
+/-- It is false.  Witness (replayed on the real code by the engine, key `not-over-and-or-with-nullable-truth-test`):
+    `not (e.n and e.a)` with `n` missing and `a = 1` — Python: `not (None and 1)` is true, the row is selected;
+    Pony emits `NOT (n <> 0 AND a <> 0)`, which is unknown, the row is not returned. -/
+theorem C01_cond_full_false_not_and :
+    conditions sch0 .sqlite (.not (.and (.attr "n") (.attr "a"))) =
+        .ok (.cons (.not (.and (.cons (.cmp .ne (.column "n") (.value (.int 0))) (.cons (.cmp .ne (.column "a") (.value (.int 0))) .nil)))) .nil) ∧
+      evalCond likeExec .sqlite (senv .sqlite env0)
+        (.and (.cons (.not (.and (.cons (.cmp .ne (.column "n") (.value (.int 0))) (.cons (.cmp .ne (.column "a") (.value (.int 0))) .nil)))) .nil))
+        = some .unk ∧
+      pySelected env0 (.not (.and (.attr "n") (.attr "a"))) = true := by
+  refine ⟨by rfl, by decide, by decide⟩
+
+theorem C01_cond_full_false : ¬ C01_cond_full := by
+  intro h
+  obtain ⟨h1, h2, h3⟩ := C01_cond_full_false_not_and
+  obtain ⟨k, hk, hiff⟩ := h sch0 .sqlite likeExec env0 _ _ wt0 (by decide) h1
+  rw [h2] at hk; injection hk with hk; subst hk
+  exact absurd (hiff.2 h3) (by decide)
+
+/-- Second witness (key `not-in-nullable-string-selects-null`): `'x' not in e.ns` with `ns` missing — a comparison with a missing
+    operand is unknown, the row is not selected by the Python reading; Pony emits `ns NOT LIKE '%x%' OR ns IS NULL`, which is true. -/
+theorem C01_cond_full_false_not_in :
+    conditions sch0 .sqlite (.like .contains true "x" (.attr "ns")) =
+        .ok (.cons (.or (.cons (.like true (.column "ns") "%x%" false) (.cons (.isNull (.column "ns")) .nil))) .nil) ∧
+      evalCond likeExec .sqlite (senv .sqlite env0)
+        (.and (.cons (.or (.cons (.like true (.column "ns") "%x%" false) (.cons (.isNull (.column "ns")) .nil))) .nil)) = some .tt ∧
+      pySelected env0 (.like .contains true "x" (.attr "ns")) = false := by
+  refine ⟨by rfl, by decide, by decide⟩
 
 end PonyVerif.Props.C01
